@@ -1,17 +1,17 @@
 SPECIFICATION Spec
 CONSTANTS
- MaxUnits = 2
+ MaxUnits = 3
  LocalNames = {"x", "y"}
  FreeNames = {"a"}
  Top = {"b"}
  MaxParams = 1
- MaxDecl = 2
+ MaxDecl = 1
  Start <- StartAB
  Cont <- ContABC
  DReserved = {"aa"}
  AllowWith = TRUE
  AllowVars = FALSE
- MaxUses = 2
+ MaxUses = 1
  RestoreOwn = FALSE
 INVARIANTS FlagAsMeant StackDepth CaptureFree NoCollision PublicUnchanged NoReserved WithOwn Emit
 CHECK_DEADLOCK FALSE
